@@ -196,7 +196,7 @@ def check_scenario(sc: Dict[str, Any], sym_tables: bool, excl=()) -> Obligation:
             # one set of argument objects for every call of the scenario: a later call with the caller's own lists (custom loss
             # rules, ion types, charges, isotopes) must see what the first call saw
             shared = _frag_kwargs(sc)
-            frs = fragment(ann.copy(), return_type="fragment", **shared)
+            frs = fragment(ann, return_type="fragment", **shared)
             # P1 exactly one ion per key
             got_keys = [(f.ion_type, f.start, f.end, f.charge, f.isotope, float(f.loss)) for f in frs]
             want_keys = expected_keys(sc)
@@ -221,13 +221,13 @@ def check_scenario(sc: Dict[str, Any], sym_tables: bool, excl=()) -> Obligation:
                     fn.why = "unmod_sequence"
                     return False
             # P5 projections
-            masses = fragment(ann.copy(), return_type="mass", **shared)
-            mzs = fragment(ann.copy(), return_type="mz", **shared)
-            labels = fragment(ann.copy(), return_type="label", **shared)
-            ml = fragment(ann.copy(), return_type="mass-label", **shared)
-            zl = fragment(ann.copy(), return_type="mz-label", **shared)
-            cached = Fragmenter(ann.copy(), sc["mono"]).fragment(return_type="fragment", **{k: v for k, v in shared.items() if k != "monoisotopic"})
-            again = fragment(ann.copy(), return_type="fragment", **shared)
+            masses = fragment(ann, return_type="mass", **shared)
+            mzs = fragment(ann, return_type="mz", **shared)
+            labels = fragment(ann, return_type="label", **shared)
+            ml = fragment(ann, return_type="mass-label", **shared)
+            zl = fragment(ann, return_type="mz-label", **shared)
+            cached = Fragmenter(ann, sc["mono"]).fragment(return_type="fragment", **{k: v for k, v in shared.items() if k != "monoisotopic"})
+            again = fragment(ann, return_type="fragment", **shared)
             if not (len(masses) == len(mzs) == len(labels) == len(ml) == len(zl) == len(cached) == len(frs) == len(again)):
                 fn.why = "projection lengths differ (same argument objects, later calls): " + str([len(x) for x in (frs, masses, mzs, labels, ml, zl, cached, again)])
                 return False
@@ -292,18 +292,18 @@ def main(p):
     problems = []
     sites = set()
     try:
-        frs = fragment(ann.copy(), return_type="fragment", **K())
+        frs = fragment(ann, return_type="fragment", **K())
         got = sorted((f.ion_type, f.start, f.end, f.charge, f.isotope, float(f.loss)) for f in frs)
         want = sorted(c04.expected_keys(sc))
         if got != want:
             problems.append(f"ion set differs from expected: {len(got)} vs {len(want)}")
-        labels = fragment(ann.copy(), return_type="label", **K())
-        ml = fragment(ann.copy(), return_type="mass-label", **K())
-        zl = fragment(ann.copy(), return_type="mz-label", **K())
-        masses = fragment(ann.copy(), return_type="mass", **K())
-        mzs = fragment(ann.copy(), return_type="mz", **K())
-        cached = Fragmenter(ann.copy(), sc["mono"]).fragment(return_type="fragment", **{k: v for k, v in K().items() if k != "monoisotopic"})
-        again = fragment(ann.copy(), return_type="fragment", **K())
+        labels = fragment(ann, return_type="label", **K())
+        ml = fragment(ann, return_type="mass-label", **K())
+        zl = fragment(ann, return_type="mz-label", **K())
+        masses = fragment(ann, return_type="mass", **K())
+        mzs = fragment(ann, return_type="mz", **K())
+        cached = Fragmenter(ann, sc["mono"]).fragment(return_type="fragment", **{k: v for k, v in K().items() if k != "monoisotopic"})
+        again = fragment(ann, return_type="fragment", **K())
         lens = [len(x) for x in (frs, masses, mzs, labels, ml, zl, cached, again)]
         if len(set(lens)) != 1 or sorted((f.ion_type, f.start, f.end, f.charge, f.isotope, float(f.loss)) for f in again) != got:
             problems.append(f"calls with the same argument objects return different ions: counts {lens} (fragment, mass, mz, label, mass-label, mz-label, Fragmenter, fragment again)")
